@@ -309,24 +309,37 @@ func CheckCase(c Case) *ev.Violation {
 					n = actual[op.Name%len(actual)]
 				}
 				known := op.Subject == "builtin" || registered[n]
+				selects := n
+				if !known && strings.Contains(n, ".") {
+					// not (yet) registered as a whole: then its first section is the name and the rest are trailing sections
+					if first := n[:strings.Index(n, ".")]; registered[first] || decoration.Named(first) != decoration.EmptyDecoration {
+						known, selects = true, first
+					}
+				}
 				var s string
-				switch op.Form {
+				form := op.Form
+				if strings.Contains(n, ".") && (strings.Contains(form, "trail") || form == "pad") {
+					form = "bare" // what follows a dotted name is not locked down: only the whole name is tried
+				}
+				switch form {
 				case "tt.":
 					s = "texttable." + n
 				case "Tt.":
 					s = "TextTable." + n
 				case "TT.":
 					s = "TEXTTABLE." + n
+				case "tt.+trail":
+					s = "texttable." + n + trail // texttable is a sub-package name: what follows the decoration name is an unknown trailing section
 				case "bare+trail":
 					s = n + trail // sections after the first are ignored (not locked down): the name still selects the decoration
 				case "pad":
 					s = []string{" " + n, n + " ", "\t" + n, n + "\n", " " + n + " "}[len(op.Trail)%5]
 					known = registered[s]
-					n = s
+					n, selects = s, s
 				default:
 					s = n
 				}
-				v = resolve(s, "texttable", n, true, !known)
+				v = resolve(s, "texttable", selects, true, !known)
 			case "unknown":
 				s := fmt.Sprintf("no-such-style-%d", seq)
 				if op.Form == "tt." {
@@ -390,6 +403,9 @@ func Classify(c Case) (bool, interface{}, []string) {
 		}
 		if strings.TrimSpace(strings.Replace(n, "#", "x", 1)) != strings.Replace(n, "#", "x", 1) || strings.Contains(n, " ") {
 			add("name-with-blanks")
+		}
+		if strings.Contains(n, ".") {
+			add("name-with-dots")
 		}
 	}
 	return nt, nil, cl
